@@ -18,6 +18,7 @@ import (
 	"net"
 	"os"
 	"runtime"
+	"strings"
 	"sync"
 	"sync/atomic"
 	"time"
@@ -560,6 +561,85 @@ func bigWire() []byte {
 	return e.b
 }
 
+// hugeWire: an accepted message (below 64 KiB) whose re-encoding - with the encoder's own compression - is larger than
+// 64 KiB: the owner names of its late records are pointers into the RDATA of an uninterpreted record, which no
+// encoder reproduces; each of them is written out in full when the message is packed again. The last name is used by
+// three records and is first written beyond offset 65535.
+func hugeWire() []byte {
+	e := &enc{offs: map[string]int{}}
+	const K = 64
+	e.u16(rng.Intn(65536))
+	e.u16(0x8180)
+	e.u16(1)
+	cntAt := len(e.b)
+	e.u16(0)
+	e.u16(0)
+	e.u16(0)
+	e.name([]string{"big", "test"}, false)
+	e.u16(255)
+	e.u16(1)
+	n := 0
+	// record 0: uninterpreted type, its RDATA is K+1 names back to back
+	e.b = append(e.b, 0xC0, 12)
+	e.u16(65281)
+	e.u16(1)
+	e.u32(300)
+	at := len(e.b)
+	e.u16(0)
+	st := len(e.b)
+	nameAt := make([]int, K+1)
+	for k := 0; k <= K; k++ {
+		nameAt[k] = len(e.b)
+		lab := fmt.Sprintf("n%02d-%s", k, strings.Repeat(string(rune('a'+k%26)), 50+rng.Intn(8)))
+		e.b = append(e.b, byte(len(lab)))
+		e.b = append(e.b, lab...)
+		e.b = append(e.b, 4, 'z', 'o', 'n', 'e', 0)
+	}
+	binary.BigEndian.PutUint16(e.b[at:], uint16(len(e.b)-st))
+	n++
+	grow := 0 // what the re-encoding is longer by: every late name in full (its "zone" suffix compressed after the first)
+	for k := 0; k < K; k++ {
+		grow += int(e.b[nameAt[k]]) + 1 + 2 - 2
+	}
+	grow += 4
+	// padding until the first of the last three records lands beyond offset 65535 in the re-encoding
+	for len(e.b)+K*16+grow < 65536+40 {
+		l := 200 + rng.Intn(50)
+		if rest := 65536 + 40 - (len(e.b) + K*16 + grow) - 12; rest < l+13 {
+			l = max(rest, 1)
+		}
+		e.b = append(e.b, 0xC0, 12)
+		e.u16(65280 + n%3)
+		e.u16(1)
+		e.u32(300)
+		e.u16(l)
+		for j := 0; j < l; j++ {
+			e.b = append(e.b, byte(n))
+		}
+		n++
+	}
+	a := func(k, r int) {
+		e.b = append(e.b, 0xC0|byte(nameAt[k]>>8), byte(nameAt[k]))
+		e.u16(1)
+		e.u16(1)
+		e.u32(60)
+		e.u16(4)
+		e.b = append(e.b, 10, 2, byte(k), byte(r))
+		n++
+	}
+	for k := 0; k < K; k++ {
+		a(k, 0)
+	}
+	for r := 0; r < 3; r++ {
+		a(K, r)
+	}
+	binary.BigEndian.PutUint16(e.b[cntAt:], uint16(n))
+	if len(e.b) > 65535 || nameAt[K] > 0x3fff {
+		panic(fmt.Sprintf("hugeWire: layout (%d octets)", len(e.b)))
+	}
+	return e.b
+}
+
 // a name that starts at or just below offset 0x3fff in the compressed encoding and runs past it, whose
 // suffixes are used again later: only the labels that begin at an offset <= 0x3fff may be pointed at
 func straddleWire(d int) []byte {
@@ -652,6 +732,7 @@ func main() {
 	mal := flag.Int("mal", 0, "mutated wire images (decode only)")
 	ownPath := flag.String("own", "", "ownership trace (pool hook events)")
 	big := flag.Int("big", 0, "messages larger than 16 KiB with late names reused")
+	huge := flag.Int("huge", 0, "accepted messages whose compressed re-encoding exceeds 64 KiB")
 	lim := flag.Int("lim", 0, "size-limited packs")
 	conc := flag.Int("conc", 0, "milliseconds of concurrent decoding / holding / re-encoding / releasing")
 	flag.Parse()
@@ -719,6 +800,14 @@ func main() {
 		if i%4 == 0 {
 			doPack(m, false, 0)
 		}
+		dnsmsg.ReleaseMsg(m)
+	}
+	for i := 0; i < *huge; i++ {
+		m := doUnpack(hugeWire())
+		if m == nil {
+			continue
+		}
+		doPack(m, true, 0)
 		dnsmsg.ReleaseMsg(m)
 	}
 	for i := 0; i < *mal; i++ {
